@@ -114,6 +114,8 @@ pub fn op() -> impl Strategy<Value = Op> {
         3 => 14 * 60_000u64..16 * 60_000,
         1 => Just(3_600_000u64),
         1 => 1u64..5_000,
+        // very long pauses: 2^k ms +/- 5 s, k = 24..40 (2^32 ms = 49.7 days), also minus 15 min
+        1 => (24u32..=40, 0u64..10_000, any::<bool>()).prop_map(|(k, d, m)| (1u64 << k) + d - 5_000 - if m { 15 * 60_000 } else { 0 }),
     ];
     prop_oneof![
         10 => (any::<bool>(), idspec(), any::<u16>()).prop_map(|(good, id, addr)| Op::Offer { good, id, addr }),
